@@ -823,7 +823,9 @@ class DataFrameSchemaBackend(PandasSchemaBackend):
 
                 passed = False
                 message = f"columns '{*subset,}' not unique:\n{failure_cases}"
-                failure_cases = reshape_failure_cases(failure_cases)
+                failure_cases = reshape_failure_cases(
+                    failure_cases, ignore_na=False
+                )
                 break
         return CoreCheckResult(
             passed=passed,
